@@ -162,6 +162,9 @@ func (e *Env) Predict(sel map[string]bool, cfg BuildCfg) (*Pred, error) {
 				if !e.markerOn(c.Marker) && t.Touch != c.Marker {
 					willFail = true
 				}
+				if t.Untouch == c.Marker && t.UntouchIf != "" && e.markerOn(t.UntouchIf) {
+					willFail = true // the command removes the marker: the check after execution fails
+				}
 			}
 		}
 		if t.SleepIf != "" && e.markerOn(t.SleepIf) && t.Timeout != "" {
